@@ -196,4 +196,28 @@ CHECKS = {
              "outside": "chains longer than 4 (6) blocks, batches > 2 hashes, more than one reorg per history; the subscription manager beyond the channel (C11)"},
         ],
     },
+    "C03": {
+        "assumptions": COMMON_ASSUMPTIONS + [
+            "the blockManager is the real one on slice-model header stores (filter store tip resolved through the block index as in the real store)",
+            "queryAllPeers and GetBlock are harness stubs that deliver each peer's scripted answer to the real response closures; a model filter payload whose first byte is 0xBA stands for 'omits an output script of the block' (VerifyBasicBlockFilter's verdict; btcd's GCS matcher is the oracle)",
+            "peer behaviours: honest, false filter hash with the true filter served, self-consistent invalid filter, false hash with the filter not served, silent, wrong previous filter header; the first peer is honest",
+            "Go's randomised map iteration is explored as one global order of the peer addresses per path (quick) or independently per range statement (thorough)",
+        ],
+        "groups": [
+            {"name": "stores", "pkg": ".", "harness_dir": "root", "common": ["walletdb", "stores", "pow"],
+             "harness": "VerifH_C19_(writeCFHeaders|rollback)",
+             "inits": ROOT_INITS, "anchored_files": ["blockmanager.go", "headerfs/store.go"],
+             "params": {"chain": 4}, "thorough": {"params": {"chain": 6}},
+             "must_reach": {"VerifH_C19_writeCFHeaders": ["write-accepted", "write-refused"], "VerifH_C19_rollback": ["filter-headers-rolled-back"]},
+             "outside": "see C19"},
+            {"name": "liars", "pkg": ".", "harness_dir": "root", "common": ["walletdb", "stores", "pow"],
+             "harness": "VerifH_C03_(uncheckpointed|checkpointedResponse)",
+             "inits": ROOT_INITS, "anchored_files": ["blockmanager.go", "verification.go", "chainsync/filtercontrol.go"],
+             "params": {"peers": 3, "maxmissing": 2, "maporder": 2}, "thorough": {"params": {"peers": 3, "maxmissing": 1, "maporder": 1}},
+             "no_native_replay": "filter validity is a marker in the model payload and the iteration order cannot be forced natively",
+             "must_reach": {"VerifH_C03_uncheckpointed": ["round-committed", "liar-present-in-committed-round"],
+                            "VerifH_C03_checkpointedResponse": ["delivered", "mismatch"]},
+             "outside": "more than 3 peers / 2 missing headers; lies that are not provable from the block (majority heuristics); the cfHandler goroutine's waiting logic; checkpoint conflict resolution across peers (checkCFCheckptSanity/resolveConflict are only covered by the repository's own tests)"},
+        ],
+    },
 }
